@@ -31,7 +31,13 @@ def run(tier, replay=None):
     if tier == "quick":
         k = seed() % 2
         tcases = [c for i, c in enumerate(tcases) if i % 2 == k]
-    cases = cases + scases + tcases
+    # the same stray placements with multi-byte characters (TLA+ strings stay ASCII: '@' is replaced here)
+    wide = []
+    for c in scases:
+        if c["fault"].endswith(":@"):
+            for w_ in ("é", "€", "😀", "\u3000"):
+                wide.append(dict(c, text=c["text"].replace("@", w_), twin=c["twin"], fault=c["fault"][:-1] + "U+%04X" % ord(w_)))
+    cases = cases + scases + tcases + wide
     r = rng("c07")
     items = []   # (case-meta, files_full, files_twin)
     for i, c in enumerate(cases):
